@@ -335,7 +335,7 @@ def run_arr(case):
                     'detail': ''}
         if step in ('P', 'D'):
             d = cm.snap_diff(Pr if step == 'P' else Dr, cm.snapshot(f))
-            if d and variant == 'f32' and not cm.snap_diff(Pr if step == 'P' else Dr, cm.snapshot(f), rtol=1e-6):
+            if d and variant in ('f32', 'f32fortran') and not cm.snap_diff(Pr if step == 'P' else Dr, cm.snapshot(f), rtol=1e-6):
                 # same values, but rsome computed with them in single precision (e.g. sqrtm of a float32 matrix):
                 # a float32-precision difference is not held against the property
                 note = ' (single-precision arithmetic)'
@@ -566,7 +566,7 @@ def run_incr(case):
         for k in splits:
             for d in decl[pos:k]:
                 d()
-            if any(pos <= e < k or e < k for e in M.INCR_EXP_DECL.get(fl, ())):
+            if any(e < k for e in M.INCR_EXP_DECL.get(fl, ())):
                 exp_before = True
             pos = k
             _direct_step(m, fl, mid)
